@@ -329,6 +329,7 @@ func (r *reader) initRootNode(fsID string) error {
 
 func (r *reader) initNodes(tr io.Reader) error {
 	dec := json.NewDecoder(tr)
+	var depth int
 	for {
 		t, err := dec.Token()
 		if err != nil {
@@ -345,6 +346,16 @@ func (r *reader) initNodes(tr io.Reader) error {
 		if de, ok := t.(json.Delim); ok {
 			if de.String() == "[" {
 				break
+			}
+			if de.String() == "{" {
+				depth++
+			}
+			if de.String() == "}" {
+				if depth--; depth == 0 {
+					// The TOC object ended without an array of entries (e.g. "entries":null, which is what
+					// the writer emits for an empty layer): there are no entries, as in the memory store.
+					return nil
+				}
 			}
 		}
 	}
